@@ -60,6 +60,8 @@ def _tok(isa):
     insn = st.fixed_dictionaries({"t": st.sampled_from(ords + ords + terms if terms else ords), "sym": ref,
                                   "imm": st.integers(0, 0xFFFF), "add": st.sampled_from([0, 0, 0, 8, 16])})
     lab = st.fixed_dictionaries({"lab": st.integers(0, 5), "temp": st.booleans()})
+    # x86: one instruction with two symbolic operands of different widths (displacement + immediate)
+    two = st.fixed_dictionaries({"t2": st.integers(0, 3), "sym": ref, "sym2": ref}) if I.TWO_SYM.get(isa) else insn
     data = st.one_of(
         st.fixed_dictionaries({"d": st.just("byte"), "v": st.lists(st.integers(0, 255), min_size=1, max_size=4)}),
         st.fixed_dictionaries({"d": st.just("zero"), "n": st.integers(1, 5)}),
@@ -74,7 +76,7 @@ def _tok(isa):
     # bursts of CFI directives and labels at one position (several empty
     # blocks in a row that the assembler has to merge)
     burst = st.fixed_dictionaries({"seq": st.lists(st.one_of(cfi, cfi, lab), min_size=2, max_size=5)})
-    return st.one_of(insn, insn, insn, insn, lab, lab, data, data, sec, cfi, cfi, burst)
+    return st.one_of(insn, insn, insn, insn, lab, lab, data, data, sec, cfi, cfi, burst, two)
 
 
 def strategy(tier):
@@ -267,6 +269,24 @@ def _program(spec):
                 raise BadSpec("directive")
             sections[cur].append(it)
             pos[cur] += it.size
+            continue
+        if "t2" in t:
+            two = I.TWO_SYM.get(isa)
+            if not two:
+                raise BadSpec("two-operand template")
+            name, att, itext, hexb, fields = two[t["t2"] % len(two)]
+            text = itext if (intel and itext) else att
+            if intel and not itext:
+                name, att, itext, hexb, fields = two[0]
+                text = itext
+            n1, h1 = resolve(t["sym"], False)
+            n2, h2 = resolve(t["sym2"], False)
+            lines.append(text.replace("{s1}", n1).replace("{s2}", n2))
+            data = bytes.fromhex(hexb)
+            it = _Item("insn", pos[cur], len(data), data=data, ikind="ord", sym=n1, how=h1, addend=0, field=fields[0], tname=name)
+            it.more = [_Item("operand", pos[cur], 0, sym=n2, how=h2, addend=0, field=fields[1], tname=name + "/imm")]
+            sections[cur].append(it)
+            pos[cur] += len(data)
             continue
         tpl = tab.get(t["t"])
         if tpl is None or not tpl.patch:
@@ -615,6 +635,8 @@ def evaluate(spec):
         for it in items:
             if it.kind in ("insn", "data") and getattr(it, "sym", None):
                 wantexpr[it.pos + it.field[0]] = it
+                for op in getattr(it, "more", ()):
+                    wantexpr[op.pos + op.field[0]] = op
         got = dict(rs.symbolic_expressions)
         for p in sorted(set(got) | set(wantexpr)):
             if p not in wantexpr:
@@ -638,7 +660,7 @@ def evaluate(spec):
             if e.offset != it.addend:
                 out.fail("C12.operands", "addend", f"{sname}+{p}: {e.offset} expected {it.addend}")
             size = rs.symbolic_expression_sizes.get(p)
-            if isa in ("x64", "ia32") or it.kind == "data":
+            if isa in ("x64", "ia32") or it.kind in ("data", "operand"):
                 if size != it.field[1]:
                     out.fail("C12.operands", "size", f"{sname}+{p} ({getattr(it, 'tname', 'word')}): {size} expected {it.field[1]}")
             elif not (size and 1 <= size <= 8):
